@@ -6,6 +6,7 @@ package main
 // are flushed into a MemDB whose write lock the open iterator's goroutine still holds).
 
 import (
+	"go/constant"
 	"go/types"
 	"fmt"
 	"sort"
@@ -198,4 +199,72 @@ func bindCheck(l *Loaded, prop, pkgSuffix, field, concrete string) *OblReport {
 		rep.Status = "failed: no assignment of Keeper." + field + " found"
 	}
 	return rep
+}
+
+// keyTableCheck (layer F): the engine's key-family table has the prefix bytes the repository's types/key.go declares
+// (constants of the mhub2 module, one-byte package variables of the oracle module).
+func keyTableCheck(l *Loaded, prop string, withOracle bool) []*OblReport {
+	var reps []*OblReport
+	for _, f := range families {
+		if f.Module == "oracle" && !withOracle {
+			continue
+		}
+		pkgSuffix := "/x/mhub2/types"
+		if f.Module == "oracle" {
+			pkgSuffix = "/x/oracle/types"
+		}
+		rep := &OblReport{Name: fmt.Sprintf("%s/F/key-table/%s", prop, f.Name), Kind: "key-table", Func: "types." + f.GoName, Solver: "syntactic", Status: "failed: " + f.GoName + " not found in " + pkgSuffix}
+		for _, sp := range l.spkgs {
+			if sp == nil || !strings.HasSuffix(sp.Pkg.Path(), pkgSuffix) {
+				continue
+			}
+			switch m := sp.Members[f.GoName].(type) {
+			case *ssa.NamedConst:
+				if v, ok := constant.Int64Val(m.Value.Value); ok && byte(v) == f.Prefix {
+					rep.Status = "discharged"
+				} else {
+					rep.Status = fmt.Sprintf("failed: %s is %s in the repository, the key-family table expects 0x%02x", f.GoName, m.Value.Value.String(), f.Prefix)
+				}
+			case *ssa.Global:
+				if lit, ok := constByteGlobal(m); ok && len(lit) == 1 && lit[0] == f.Prefix {
+					rep.Status = "discharged"
+				} else {
+					rep.Status = fmt.Sprintf("failed: %s is not the one-byte prefix 0x%02x the key-family table expects", f.GoName, f.Prefix)
+				}
+			}
+		}
+		reps = append(reps, rep)
+	}
+	// the other direction: every byte constant of mhub2's types/key.go is a known family (a new family that the
+	// genesis functions do not carry would otherwise go unnoticed)
+	ignore := map[string]bool{"LastSlashedSignerSetTxNonceKey": true} // declared, never used as a key prefix
+	for _, sp := range l.spkgs {
+		if sp == nil || !strings.HasSuffix(sp.Pkg.Path(), "/x/mhub2/types") {
+			continue
+		}
+		var names []string
+		for n := range sp.Members {
+			names = append(names, n)
+		}
+		sort.Strings(names)
+		for _, n := range names {
+			nc, ok := sp.Members[n].(*ssa.NamedConst)
+			if !ok || ignore[n] || strings.Contains(n, "PrefixByte") || !strings.HasSuffix(l.prog.Fset.Position(nc.Pos()).Filename, "/types/key.go") {
+				continue
+			}
+			if b, isB := nc.Type().Underlying().(*types.Basic); !isB || b.Kind() != types.Uint8 {
+				continue
+			}
+			known := false
+			for _, f := range families {
+				if f.GoName == n {
+					known = true
+				}
+			}
+			if !known {
+				reps = append(reps, &OblReport{Name: fmt.Sprintf("%s/F/key-table/unknown/%s", prop, n), Kind: "key-table", Func: "types." + n, Solver: "syntactic", Status: "failed: types/key.go declares the key prefix " + n + " (" + nc.Value.Value.String() + ") that the engine's key-family table does not know"})
+			}
+		}
+	}
+	return reps
 }
